@@ -397,7 +397,7 @@ func genIgnorable(r *rand.Rand, ts uint32, insideTx bool, gtidOn bool) *Ev {
 		case 1:
 			return &Ev{K: "unknown", TS: ts, Code: unknownCodes[r.Intn(len(unknownCodes))]}
 		case 2:
-			return &Ev{K: "query", TS: ts, Cat: "unknown", DB: "d", SQL: pickS(r, "SAVEPOINT sp1", "FLUSH TABLES", "GRANT ALL ON x", "XA START 'a'", "/* c */ select 1", "")}
+			return &Ev{K: "query", TS: ts, Cat: "unknown", DB: "d", SQL: pickS(r, "SAVEPOINT sp1", "FLUSH TABLES", "GRANT ALL ON x", "XA START 'a'", "/* c */ select 1", "", "REPLACE INTO t VALUES (1)", "replace into d.t select 1", "CALL p()", "LOAD DATA INFILE 'x' INTO TABLE t", "Analyze table t")}
 		case 3:
 			if !insideTx && gtidOn {
 				return &Ev{K: "gtid", TS: ts, Sid: vfSid(byte(r.Intn(3))), Gno: int64(1 + r.Intn(1000))}
@@ -504,6 +504,37 @@ func genUnit(r *rand.Rand, kind string, tables []*Table, gp GenParams, ts *uint3
 		add(genIgnorable(r, next(), false, gtidOn))
 	}
 	return u
+}
+
+// unknownVerbs: statements a master logs in statement or mixed format that the library has no kind for. They are ignored,
+// inside and outside transactions.
+var unknownVerbs = []string{"REPLACE INTO t VALUES (1)", "replace into d.t select 1", "Replace t set a=1", "CALL p()", "LOAD DATA INFILE 'x' INTO TABLE t",
+	"ANALYZE TABLE t", "OPTIMIZE TABLE t", "GRANT ALL ON x", "REVOKE ALL ON x", "SAVEPOINT sp1", "RELEASE SAVEPOINT sp1", "XA START 'a'", "FLUSH TABLES",
+	"WITH c AS (SELECT 1) SELECT 1", "DO 1", "select 1", "INSERTX", "deleted", "", " insert into t values (1)", "/* c */ update t set a=1"}
+
+// verbsLog: every statement the library has no kind for, once between transactions and once inside a transaction that also
+// holds ordinary changes.
+func verbsLog(r *rand.Rand, cfg WireCfg, gp GenParams) *Log {
+	l := &Log{Cfg: cfg}
+	tables := []*Table{genTable(r, 100, gp)}
+	ts := uint32(1600000000)
+	f := &LogFile{Name: "mysql-bin.000001"}
+	l.Files = []*LogFile{f}
+	for _, sql := range unknownVerbs {
+		f.Units = append(f.Units, &Unit{U: "ign", Evs: []*Ev{{K: "query", TS: ts, Cat: "unknown", DB: "d", SQL: sql}}})
+		u := genUnit(r, pickS(r, "txxid", "txcommit", "txrollback"), tables, gp, &ts, cfg.Gtid)
+		// after the BEGIN (the first query event of the unit)
+		for i, ev := range u.Evs {
+			if ev.K == "query" && ev.Cat == "begin" {
+				rest := append([]*Ev{{K: "query", TS: ts, Cat: "unknown", DB: "d", SQL: sql}}, u.Evs[i+1:]...)
+				u.Evs = append(u.Evs[:i+1:i+1], rest...)
+				break
+			}
+		}
+		f.Units = append(f.Units, u)
+	}
+	l.Layout()
+	return l
 }
 
 func optTail(r *rand.Rand) []byte {
